@@ -42,7 +42,7 @@ def check(run):
         bt = run.borrow("C13", why="optimisation reorders the buckets: the redirect chosen among matching rules must not depend on the order they are visited in")
         run.guard("C05.via.C13.6.priority-suffix", cfg, lambda: _C13t.rule_tie_break(bt, F, cfg))
         from . import C02 as _C02rc
-        brc = run.borrow("C02", only=r"regex-text-case|builders-", why="the fused set must match like its members: every builder of compile_regex is configured alike")
+        brc = run.borrow("C02", only=r"regex-text-case|builders-|one-regex-only", why="the fused set must match like its members: every builder of compile_regex is configured alike, and all patterns of a fused filter are compiled together")
         run.guard("C05.via.C02.3.regex-translation", cfg, lambda: (_C02rc.rule_regex_case(brc, F, cfg), _C02rc.rule_regex_builder(brc, F, cfg)))
 
 
